@@ -180,3 +180,260 @@ def register(GROUPS, c2g, incs, REPO, HERE, STRUCTS, Group):
         return g, [f]
 
     GROUPS["OptionsC17"] = gen_options
+
+
+    # ======================================================================================================================
+    # group DictC17: /repo/iniparser/dictionary.c, the dictionary behind iniparser_load (one entry per section heading and per key)
+    # ======================================================================================================================
+    class DictT(sl.SliceT):
+        """SliceT with three documented additions for dictionary.c:
+           * `d->key[e]` / `d->val[e]` / `d->hash[e]` are the memory reads `d_key e` / `d_val e` / `d_hash e` (the prefix keeps the
+             array `d->key` apart from the parameter `key`);
+           * `strcmp (key, d->key[e])` is `strcmp_key e` (what strcmp returns for the searched key and the key stored in slot e),
+             `xstrdup (p)` is `xstrdup p` (the address of a fresh copy of the string at p): function parameters;
+           * `if (++x == e) S` is read as `++x; if (x == e) S`."""
+        hook_funs = ()
+        loops_return_int = False       # a `return e;` inside a loop delivers an integer (sl.emit_block assumes void)
+
+        @property
+        def ret_void(self):
+            return not self.loops_return_int
+
+        @ret_void.setter
+        def ret_void(self, v):
+            pass
+
+        def __init__(self, **kw):
+            super().__init__(**kw)
+            self._extra = []
+            self.call_hooks = dict(self.call_hooks)
+            self.call_hooks["strcmp"] = DictT.strcmp_hook
+            self.call_hooks["xstrdup"] = DictT.xstrdup_hook
+
+        @property
+        def extra(self):
+            return self._extra
+
+        @extra.setter
+        def extra(self, v):
+            self._extra = list(v) + [x for x in self.hook_funs if x not in v]
+
+        def fun_name(self, n):
+            b = sl.strip(n["inner"][0])
+            if b.get("kind") == "MemberExpr" and (b.get("name") in self.array_reads or b.get("name") in self.store_arrays) and \
+                    sl.strip(b["inner"][0]).get("referencedDecl", {}).get("name") == "d":
+                return "d_" + b["name"]
+            return None
+
+        def lvalue_key(self, n):
+            n2 = c2g.skip_parens(n)
+            if n2.get("kind") == "ArraySubscriptExpr" and self.fun_name(n2) is not None and self.fun_name(n2)[2:] in self.store_arrays:
+                return self.fun_name(n2) + "_store"
+            return super().lvalue_key(n)
+
+        def referenced(self, s_, acc):
+            # the arrays are memory-read functions, not locations; a hooked / symbolic call contributes only what its translation reads
+            if s_.get("kind") == "ArraySubscriptExpr" and self.fun_name(s_) is not None:
+                self.referenced(s_["inner"][1], acc)
+                return
+            if s_.get("kind") == "CallExpr":
+                cn = sl.callee_name(s_)
+                if cn == "strcmp":
+                    b = sl.strip(s_["inner"][2])
+                    if b.get("kind") == "ArraySubscriptExpr":
+                        self.referenced(b["inner"][1], acc)
+                    return
+                if cn in self.symbolic_calls:
+                    return
+                if cn in self.call_hooks or cn in self.effects:
+                    for c in s_["inner"][1:]:
+                        self.referenced(c, acc)
+                    return
+            super().referenced(s_, acc)
+
+        def strcmp_hook(self, n, env):
+            a, b = sl.strip(n["inner"][1]), sl.strip(n["inner"][2])
+            if a.get("referencedDecl", {}).get("name") != "key" or b.get("kind") != "ArraySubscriptExpr" or self.fun_name(b) != "d_key":
+                raise c2g.Unsupported("strcmp is not called as strcmp (key, d->key[..]) in %s" % self.fname)
+            if ("strcmp_key", "Z -> Z") not in self.hook_funs:
+                raise c2g.Unsupported("unexpected strcmp in %s" % self.fname)
+            return c2g.E("strcmp_key %s" % self.expr(b["inner"][1], env).z())
+
+        def xstrdup_hook(self, n, env):
+            if ("xstrdup", "Z -> Z") not in self.hook_funs:
+                raise c2g.Unsupported("unexpected xstrdup in %s" % self.fname)
+            return c2g.E("xstrdup %s" % self.expr(n["inner"][1], env).z())
+
+        def stmts(self, ss, env, K):
+            if ss and ss[0].get("kind") == "IfStmt":
+                c = c2g.skip_parens(ss[0]["inner"][0])
+                if c.get("kind") == "BinaryOperator" and c.get("opcode") == "==":
+                    l = c2g.skip_parens(c["inner"][0])
+                    if l.get("kind") == "UnaryOperator" and l.get("opcode") == "++" and not l.get("isPostfix") and \
+                            c2g.skip_parens(l["inner"][0]).get("kind") == "DeclRefExpr":
+                        var = c2g.skip_parens(l["inner"][0])
+                        read = dict(kind="ImplicitCastExpr", castKind="LValueToRValue", type=var.get("type"), inner=[var])
+                        c2 = dict(c, inner=[read, c["inner"][1]])
+                        return super().stmts([l, dict(ss[0], inner=[c2] + list(ss[0]["inner"][1:]))] + list(ss[1:]), env, K)
+            return super().stmts(ss, env, K)
+
+    STRCMP, XSTRDUP = ("strcmp_key", "Z -> Z"), ("xstrdup", "Z -> Z")
+
+    def demit(hooks, *a, **kw):
+        """sl.emit_block with DictT as the translator"""
+        saved = sl.SliceT
+        DictT.hook_funs = tuple(hooks)
+        DictT.loops_return_int = bool(kw.pop("loops_return_int", False))
+        sl.SliceT = DictT
+        try:
+            return sl.emit_block(*a, **kw)
+        finally:
+            sl.SliceT = saved
+            DictT.hook_funs = ()
+            DictT.loops_return_int = False
+
+    def gen_dict(tmp):
+        g = Group("DictC17")
+        f = os.path.join(REPO, "iniparser", "dictionary.c")
+        cache = {}
+        ARR = ("key", "val", "hash")
+
+        def fn(name):
+            if name not in cache:
+                cache[name] = c2g.find_function(c2g.clang_ast(f, name, incs(tmp)), name)
+            return cache[name]
+
+        def body(F):
+            return [c for c in F["inner"] if c.get("kind") == "CompoundStmt"][0].get("inner", [])
+
+        def one(lst, what):
+            if len(lst) != 1:
+                raise c2g.Unsupported("%s: %d candidates" % (what, len(lst)))
+            return lst[0]
+
+        def is_call_assign(s_, callee):
+            return s_.get("kind") == "BinaryOperator" and s_.get("opcode") == "=" and sl.callee_name(sl.strip(s_["inner"][1])) == callee
+
+        def member(n, name):
+            n = sl.strip(n)
+            return n.get("kind") == "MemberExpr" and n.get("name") == name
+
+        # ---- mem_double: the whole function
+        F = fn("mem_double")
+        t, i = sl.emit_block(body(F), "dict_mem_double", ["ret", "*ghosts"], "mem_double", params=("ptr", "size"), ret="ret",
+                             want_params=["ptr", "size", "calloc_ret"], effects=("calloc", "memcpy", "free"),
+                             comment="returns (returned pointer, calloc (arg0, arg1), memcpy (arg0, arg1, arg2), free (arg0)); a call that is not made has the arguments 0")
+        g.add(t, i)
+
+        # ---- dictionary_new: the minimal size and the three arrays
+        F = fn("dictionary_new")
+        B = body(F)
+        first = one([s_ for s_ in B if s_.get("kind") == "IfStmt" and sl.refs(s_["inner"][0]) == {"size"}], "dictionary_new: minimal size")
+        t, i = sl.emit_block([first], "dict_new_size", ["size"], "dictionary_new", params=("size",), want_params=["size"])
+        g.add(t, i)
+        allocs = [s_ for s_ in B if is_call_assign(s_, "calloc") and sl.strip(s_["inner"][0]).get("kind") == "MemberExpr"]
+        sizeas = [s_ for s_ in B if s_.get("kind") == "BinaryOperator" and s_.get("opcode") == "=" and member(s_["inner"][0], "size")]
+        if len(allocs) != 3 or len(sizeas) != 1:
+            raise c2g.Unsupported("dictionary_new: %d array allocations, %d assignments of d->size" % (len(allocs), len(sizeas)))
+        t, i = sl.emit_block(sizeas + allocs, "dict_new_arrays", ["d_size", "d_val", "d_key", "d_hash", "*ghosts"], "dictionary_new", params=("size",),
+                             want_params=["size", "calloc_ret", "calloc2_ret", "calloc3_ret"], effects=("calloc",),
+                             comment="returns (d->size, d->val, d->key, d->hash, the arguments of the three calloc calls)")
+        g.add(t, i)
+
+        # ---- dictionary_get: the whole function
+        F = fn("dictionary_get")
+        t, i = demit([STRCMP], body(F), "dict_lookup", ["ret"], "dictionary_get", params=("d_size", "def", "dictionary_hash_ret"), ret="ret",
+                     want_params=["d_size", "def", "dictionary_hash_ret"], array_reads=ARR, symbolic_calls=("dictionary_hash",), loops_return_int=True,
+                     comment="dictionary_hash_ret = dictionary_hash (key)")
+        g.add(t, i)
+
+        # ---- dictionary_unset: the search, the not-found test, the removal
+        F = fn("dictionary_unset")
+        B = body(F)
+        loop = one([s_ for s_ in B if s_.get("kind") == "ForStmt"], "dictionary_unset: loop")
+        hs_ = one([s_ for s_ in B if is_call_assign(s_, "dictionary_hash")], "dictionary_unset: hash")
+        t, i = demit([STRCMP], [hs_, loop], "dict_unset_find", ["i"], "dictionary_unset", params=("d_size", "dictionary_hash_ret"),
+                     want_params=["d_size", "dictionary_hash_ret"], array_reads=ARR, symbolic_calls=("dictionary_hash",),
+                     comment="the slot the search stops at (d->size: not found)")
+        g.add(t, i)
+        k = B.index(loop)
+        nf = B[k + 1]
+        if nf.get("kind") != "IfStmt" or not sl.find_nodes(nf, lambda n: n.get("kind") == "ReturnStmt"):
+            raise c2g.Unsupported("dictionary_unset: the statement behind the loop is not the not-found test")
+        t, i = sl.emit_cond(nf["inner"][0], "dict_unset_notfound", "dictionary_unset", params=("i", "d_size"), want_params=["i", "d_size"])
+        g.add(t, i)
+        rest = [s_ for s_ in B[k + 2:] if s_.get("kind") != "ReturnStmt"]
+        t, i = demit([], rest, "dict_unset_remove", ["d_key_store", "d_val_store", "d_hash_store", "d_n", "*ghosts"], "dictionary_unset",
+                     params=("i", "d_n"), init={"d_key_store": "(-1)", "d_val_store": "(-1)", "d_hash_store": "(-1)"},
+                     want_params=["i", "d_n"], array_reads=ARR, store_arrays=ARR, effects=("free",),
+                     comment="returns (what is stored into d->key[i], d->val[i], d->hash[i] (-1: nothing), d->n, the arguments of the free calls)")
+        g.add(t, i)
+
+        # ---- dictionary_set
+        F = fn("dictionary_set")
+        B = body(F)
+        bad = B[[k_ for k_, s_ in enumerate(B) if s_.get("kind") == "IfStmt"][0]]
+        if sl.refs(bad["inner"][0]) != {"d", "key"}:
+            raise c2g.Unsupported("dictionary_set: the first test is not the argument test")
+        t, i = sl.emit_cond(bad["inner"][0], "dict_set_badargs", "dictionary_set", params=("d", "key"), want_params=["d", "key"])
+        g.add(t, i)
+        srch = one([s_ for s_ in B if s_.get("kind") == "IfStmt" and sl.find_nodes(s_, lambda n: n.get("kind") == "ForStmt")], "dictionary_set: search")
+        t, i = sl.emit_cond(srch["inner"][0], "dict_set_nonempty", "dictionary_set", params=("d_n",), want_params=["d_n"])
+        g.add(t, i)
+        loop = one(sl.find_nodes(srch, lambda n: n.get("kind") == "ForStmt"), "dictionary_set: search loop")
+        found = one(sl.find_nodes(loop, lambda n: n.get("kind") == "IfStmt" and sl.find_nodes(n["inner"][0], lambda m: sl.callee_name(m) == "strcmp")
+                                  and not sl.find_nodes(n["inner"][0], lambda m: m.get("kind") == "ArraySubscriptExpr" and member(m["inner"][0], "hash"))),
+                    "dictionary_set: key comparison")
+        fb = found["inner"][1]
+        fstm = fb.get("inner", []) if fb.get("kind") == "CompoundStmt" else [fb]
+        if not fstm or fstm[-1].get("kind") != "ReturnStmt":
+            raise c2g.Unsupported("dictionary_set: the branch of a found key does not end with return")
+        # the search loop with the branch of a found key replaced by `break`: the slot the search stops at
+        import copy
+
+        def replace(n):
+            if n is found:
+                return dict(n, inner=[n["inner"][0], {"kind": "BreakStmt"}])
+            if isinstance(n, dict) and "inner" in n:
+                return dict(n, inner=[replace(c) for c in n["inner"]])
+            return n
+        hs_ = one([s_ for s_ in B if is_call_assign(s_, "dictionary_hash")], "dictionary_set: hash")
+        t, i = demit([STRCMP], [hs_, replace(loop)], "dict_set_find", ["i"], "dictionary_set", params=("d_size", "dictionary_hash_ret"),
+                     want_params=["d_size", "dictionary_hash_ret"], array_reads=ARR, symbolic_calls=("dictionary_hash",),
+                     comment="the search loop, the branch of a found key read as `break`: the slot the search stops at (d->size: not found)")
+        g.add(t, i)
+        t, i = demit([XSTRDUP], fstm, "dict_set_replace", ["ret", "d_val_store", "*ghosts"], "dictionary_set", params=("i", "val"), ret="ret",
+                     want_params=["i", "val"], array_reads=ARR, store_arrays=ARR, effects=("free",),
+                     comment="the branch of a found key: (returned value, what is stored into d->val[i], the argument of free)")
+        g.add(t, i)
+        grow = one([s_ for s_ in B if s_.get("kind") == "IfStmt" and sl.find_nodes(s_, lambda n: sl.callee_name(n) == "mem_double")], "dictionary_set: growth")
+        t, i = sl.emit_cond(grow["inner"][0], "dict_set_full", "dictionary_set", params=("d_n", "d_size"), want_params=["d_n", "d_size"])
+        g.add(t, i)
+        gb = grow["inner"][1].get("inner", [])
+        dbl = [s_ for s_ in gb if is_call_assign(s_, "mem_double")]
+        fail = [s_ for s_ in gb if s_.get("kind") == "IfStmt"]
+        szs = [s_ for s_ in gb if s_.get("kind") == "CompoundAssignOperator" and member(s_["inner"][0], "size")]
+        if len(dbl) != 3 or len(fail) != 1 or len(szs) != 1 or len(gb) != 5 or len(grow["inner"]) != 2:
+            raise c2g.Unsupported("dictionary_set: the growth block is not three mem_double assignments, the failure test and the new size")
+        t, i = sl.emit_block(dbl + szs, "dict_set_grow", ["d_val", "d_key", "d_hash", "d_size", "*ghosts"], "dictionary_set",
+                             params=("d_val", "d_key", "d_hash", "d_size"), effects=("mem_double",),
+                             want_params=["d_val", "d_key", "d_hash", "d_size", "mem_double_ret", "mem_double2_ret", "mem_double3_ret"],
+                             comment="returns (d->val, d->key, d->hash, d->size, the arguments (pointer, bytes) of the three mem_double calls)")
+        g.add(t, i)
+        t, i = sl.emit_cond(fail[0]["inner"][0], "dict_set_grow_failed", "dictionary_set", params=("d_val", "d_key", "d_hash"), want_params=["d_val", "d_key", "d_hash"])
+        g.add(t, i)
+        k = B.index(grow)
+        ins = B[k + 1]
+        if ins.get("kind") != "ForStmt":
+            raise c2g.Unsupported("dictionary_set: no insertion loop behind the growth block")
+        t, i = demit([], [ins], "dict_set_slot", ["i"], "dictionary_set", params=("d_n", "d_size"), want_params=["d_n", "d_size"], array_reads=ARR,
+                     comment="the first empty slot from d->n on, wrapping at d->size")
+        g.add(t, i)
+        rest = [s_ for s_ in B[k + 2:] if s_.get("kind") != "ReturnStmt"]
+        t, i = demit([XSTRDUP], rest, "dict_set_store", ["d_key_store", "d_val_store", "d_hash_store", "d_n"], "dictionary_set",
+                     params=("key", "val", "hash", "d_n"), want_params=["key", "val", "hash", "d_n"], store_arrays=ARR,
+                     comment="what is stored into d->key[i], d->val[i], d->hash[i], and d->n")
+        g.add(t, i)
+        return g, [f]
+
+    GROUPS["DictC17"] = gen_dict
